@@ -245,6 +245,25 @@ func RunMany(c *hx.Ctx, prop string, n, par int, c10 bool) {
 	wg.Wait()
 }
 
+// ModelCheck emits `mc` cases: the driver explores EVERY schedule of the model for the configuration up to the state
+// limit and evaluates the executable invariant (all clauses of Inv), "no silent outcome", "the global timer completes a
+// parked exchange" and "a parked worker waits for a live upstream request" on every state. No implementation side.
+func ModelCheck(c *hx.Ctx, prop string) {
+	limit := c.N(15000, 200000)
+	cfgs := []dsx.Cfg{
+		{Route: "c", Data: true, Trailers: true, RetryOn: true, TryTimeout: true, MR: 1, MQ: 1},
+		{Route: "c", RetryOn: true, N: 4, Codes: []int{503}, TryTimeout: true, MR: 2, MQ: 2, AR: 1, AQ: 1},
+		{Route: "c", OneWay: true, Trailers: true, RetryOn: true, TryTimeout: true, MQ: 2, AQ: 2},
+		{Route: "nh", RetryOn: true, TryTimeout: true, MR: 1, MQ: 1},
+		{Route: "d200", OneWay: true, RetryOn: true, MR: 1, MQ: 1},
+	}
+	for _, cfg := range cfgs {
+		c.Emit(prop, fmt.Sprintf("mc %s %d", cfg.Tokens(), limit), "")
+		c.Count("mc")
+	}
+}
+
 func Run(c *hx.Ctx) {
+	ModelCheck(c, "C03")
 	RunMany(c, "C03", c.N(700, 2500), 8, false)
 }
